@@ -283,6 +283,20 @@ func c03Enforce(c *Ctx) {
 			}
 		}
 
+		// ---- d'. matchers that mention no policy field (one evaluation on blank fields, explanation
+		//          index 0) with an EMPTY and a non-empty policy, under every effect: the
+		//          explanation lookup must not fail, and never after the decision was made
+		for _, eff := range c01EffectTags {
+			for _, m := range []*c01E{c01Eq(c01V_("r_sub"), c01Str("alice")), c01Bool(true), c01Bool(false), c01Eq(c01V_("r_obj"), c01V_("r_sub")),
+				c01Bin("||", c01Eq(c01V_("r_sub"), c01Str("alice")), c01Eq(c01V_("r_act"), c01Str("read")))} {
+				for _, n := range []int{0, 1, 3} {
+					cs := c01Build(r, next("policy-free."+eff), acl, m, eff, n, 0)
+					cs.reqs = c01AllReqs(r, nil, [][]c01V{c01StrVals("alice", "bob"), c01StrVals("data1", "alice"), c01StrVals("read")}, true)
+					c03RunEnf(c, cs, "matcher without policy fields")
+				}
+			}
+		}
+
 		// ---- e. EnforceWithMatcher: texts that do not parse, unknown functions / identifiers,
 		//         blank and comment-only texts, the empty text (= the model's matcher)
 		type wmT struct {
